@@ -189,7 +189,14 @@ func BuildRouterModel(p *Program) (*RouterModel, error) {
 				}
 				// a route function: (path, method string) (http.Handler, string, bool)
 				sig, _ := info.Defs[fd.Name].Type().(*types.Signature)
-				if sig != nil && sig.Params().Len() == 2 && sig.Results().Len() == 3 && strings.HasPrefix(fd.Name.Name, "route") {
+				isTriple := sig != nil && sig.Results().Len() == 3
+				if sig != nil && sig.Results().Len() == 1 {
+					// a result struct that normalisation N4 presents as its fields
+					if nt, ok := sig.Results().At(0).Type().(*types.Named); ok && n4Structs[nt] {
+						isTriple = true
+					}
+				}
+				if sig != nil && sig.Params().Len() == 2 && isTriple && strings.HasPrefix(fd.Name.Name, "route") {
 					n := buildRouteNode(p, fd)
 					m.Nodes[n.Name] = n
 					m.Order = append(m.Order, n.Name)
